@@ -177,5 +177,323 @@ def run(ctx, pid):
     raise vlib.Infra("unknown property " + pid)
 
 
+# ------------------------------------------------------------------------------------------------ C08
+"""C08  TLC cannot represent int64 (its integers are 32-bit), so the arithmetic part is checked by Apalache:
+     (1) symbolic, whole domain: MC_Backoff.tla, n, i, m, ra range over ALL of int64, the C08 formulas are invariants of the
+         transcription with Defects = {} (design obligation); with Defects = {"DoubleWrap"}, {"Cap62"} Apalache produces
+         counterexample inputs, which join the vectors;
+     (2) binding: the real backoffDelay and the real supervisor option are evaluated on boundary-biased + seeded random
+         vectors + the counterexamples; the records become Backoff_Recs.tla and Apalache checks Trace_Backoff.tla:
+         Mon* (the formulas on the recorded outputs: verdict) and Conf* (recorded = transcription: drift);
+     (3) fault counting: FaultWindow.tla (TLC, exhaustive), every history of length D and random walks executed on the real
+         (*PID).recordFault, judged by TLC (Trace_FaultWindowAbs monitor, Trace_FaultWindow conformance)."""
+KSPEC = "Backoff"
+MIN64, MAX64 = -2**63, 2**63 - 1
+SYM_INVS = ["InvNonNeg", "InvCapped", "InvExact", "InvDisabled", "InvMonotone", "InvRange", "InvFloor", "InvNormalize"]
+MON_INVS = ["MonNonNeg", "MonCapped", "MonExact", "MonDisabled", "MonMonotone", "MonOption", "MonComposed"]
+CONF_INVS = ["ConfDelay", "ConfOption"]
+REC_FIELDS = ["n", "i", "m", "ra", "r", "r1", "si", "sm", "sra", "rc", "rc1"]
+
+
+def apalache(ctx, name, module, cinit, invs, timeout, extra_files=None):
+    """Run `apalache-mc check --length=0` on a scratch copy of specs/Backoff. Returns dict(violated=<inv name or None>,
+    ce=<text of the counterexample state>, wall)."""
+    src = os.path.join(vlib.VERIF, "specs", KSPEC)
+    rundir = ctx.tmp("apa-" + name)
+    os.makedirs(rundir)
+    for fn in os.listdir(src):
+        if fn.endswith(".tla"):
+            shutil.copy(os.path.join(src, fn), rundir)
+    for k, v in (extra_files or {}).items():
+        with open(os.path.join(rundir, k), "w") as f:
+            f.write(v)
+    cmd = ["timeout", str(timeout), "apalache-mc", "check", "--length=0", "--init=Init", "--next=Next", "--cinit=" + cinit,
+           "--inv=" + ",".join(invs), "--out-dir=" + os.path.join(rundir, "out"), module + ".tla"]
+    t = time.time()
+    env = dict(os.environ)
+    env.setdefault("JVM_ARGS", "-Xmx6g")
+    p = subprocess.run(cmd, cwd=rundir, stdout=subprocess.PIPE, stderr=subprocess.STDOUT, text=True, env=env)
+    wall = time.time() - t
+    out = p.stdout
+    with open(os.path.join(rundir, "apalache.out"), "w") as f:
+        f.write(out)
+    res = {"name": name, "module": module, "cinit": cinit, "invariants": invs, "wall_s": round(wall, 1), "violated": None, "ce": None}
+    if p.returncode == 124:
+        raise vlib.Infra("apalache timeout after %ss on %s (%s)" % (timeout, module, name))
+    holds = len(re.findall(r"state invariant \d+ holds", out))
+    nvc = re.search(r"Checking (\d+) state invariants", out)
+    nvc = int(nvc.group(1)) if nvc else -1
+    m = re.search(r"state invariant (\d+) violated", out)
+    res["held"], res["verification_conditions"] = holds, nvc
+    if "The outcome is: NoError" in out and holds == nvc and nvc >= len(invs):
+        return res
+    if m and "The outcome is: Error" in out:
+        # Apalache may split a conjunctive invariant into several conditions; the index names the formula only when it did not
+        res["violated"] = invs[int(m.group(1))] if nvc == len(invs) else "one of " + ",".join(invs)
+        ces = []
+        for root, _, files in os.walk(os.path.join(rundir, "out")):
+            if "violation1.tla" in files:
+                ces.append(os.path.join(root, "violation1.tla"))
+        if not ces:
+            raise vlib.Infra("apalache reported a violation without a counterexample file (%s)" % name)
+        txt = open(ces[0]).read()
+        res["ce"] = txt[txt.index("State0 =="):txt.index("(* The following formula")]
+        return res
+    raise vlib.Infra("apalache failed on %s (%s), exit %s:\n%s" % (module, name, p.returncode, out[-2500:]))
+
+
+def _ce_ints(ce):
+    return {k: int(v) for k, v in re.findall(r"\b(\w+) (?:=|\|->) (-?\d+)", ce)}
+
+
+def c08_vectors(rng, nrandom):
+    """Boundary-biased vectors (powers of two, near overflow, non-positive, the double-wrap class) + seeded random ones."""
+    vs = []
+
+    def add(n, i, m, ra=0):
+        if MIN64 <= n <= MAX64 and MIN64 <= i <= MAX64 and MIN64 <= m <= MAX64 and MIN64 <= ra <= MAX64:
+            vs.append({"n": n, "i": i, "m": m, "ra": ra})
+    ns = [MIN64, -1, 0, 1, 2, 3, 31, 32, 33, 61, 62, 63, 64, 65, 66, 100, MAX64 - 1, MAX64]
+    iv = [MIN64, -1, 0, 1, 2, 3, 10**8, 10**9, 2**31, 2**33 + 1, 2**62, 2**62 + 1, MAX64 - 1, MAX64]
+    for n in ns:
+        for i in iv:
+            for m in (MIN64, -1, 0, 1, i - 1, i, i + 1, 2**62, 2**62 + 1, MAX64):
+                add(n, i, m, rng.choice([MIN64, -1, 0, 1, 10**9, MAX64]))
+    # around the exact product i * 2^(n-1) and around the wrap-around points
+    for k in range(0, 63):
+        for i in (1, 3, 2**(62 - k) - 1, 2**(62 - k), 2**(62 - k) + 1, 2**(63 - k) - 1 if k < 63 else 1):
+            if i <= 0:
+                continue
+            prod = i << k
+            for m in (prod - 1, prod, prod + 1, MAX64):
+                add(k + 1, i, m, 0)
+    # double wrap: i = 2^a + low, shifted so that 2^a leaves the 64-bit word and low comes back small and positive
+    for a in range(2, 63):
+        for low in (1, 3, 5):
+            for extra in (0, 1, 2):
+                shift = 64 - a + extra
+                if shift > 70 or low >= 2**a:
+                    continue
+                i = 2**a + low
+                add(shift + 1, i, MAX64, 0)
+                add(shift + 1, i, max(i, (low << shift) & MAX64) + 1, 0)
+                add(shift, i, MAX64, 0)
+    boundary = len(vs)
+
+    def mag():
+        bits = rng.randint(0, 63)
+        x = rng.getrandbits(bits) if bits else 0
+        return x if rng.random() < 0.85 else -x
+    for _ in range(nrandom):
+        n = rng.choice([rng.randint(1, 70), rng.randint(1, 70), rng.randint(-3, 130), mag()])
+        i = mag()
+        m = rng.choice([mag(), abs(mag()), MAX64, abs(i) * rng.randint(1, 1000)])
+        add(n, i, m, rng.choice([0, -1, mag(), abs(mag())]))
+    # de-duplicate, keep order
+    seen, out = set(), []
+    for v in vs:
+        k = (v["n"], v["i"], v["m"], v["ra"])
+        if k not in seen:
+            seen.add(k)
+            out.append(v)
+    return out, boundary
+
+
+def recs_module(rows):
+    body = ",\n  ".join("[" + ", ".join("%s |-> %d" % (f, r[f]) for f in REC_FIELDS) + "]" for r in rows)
+    return ("---------------------------- MODULE Backoff_Recs ----------------------------\n"
+            "(* generated: records of the real backoffDelay / WithExponentialBackoff *)\nEXTENDS Integers\n"
+            "\\* @type: Set({ n: Int, i: Int, m: Int, ra: Int, r: Int, r1: Int, si: Int, sm: Int, sra: Int, rc: Int, rc1: Int });\n"
+            "Recs == {\n  %s\n}\n=============================================================================\n" % body)
+
+
+def _input_class(v):
+    """Class of a vector by its INPUTS only (used to match known findings and to explain violations)."""
+    n, i, m = v["n"], v["i"], v["m"]
+    if i > 0 and m >= 0 and 1 <= n <= 62 and (i << (n - 1)) >= 2**64:
+        return "DoubleWrap"       # the product leaves the 64-bit word entirely
+    if i > 0 and m >= 0 and n == 63 and (i << 62) <= MAX64:
+        return "Cap62"            # 2^62 * i is still representable
+    return "other"
+
+
+def fault_window_part(ctx, exe):
+    """recordFault: design check, behaviours, replay on the real function, monitor + conformance (all TLC)."""
+    quick = ctx.quick
+    mc = ctx.tlc_must_hold(KSPEC, "MC_FaultWindow.cfg", module="MC_FaultWindow", timeout=300, workers=2)
+    g = ctx.tlc(KSPEC, "Gen_FaultWindow.cfg" if quick else "Gen_FaultWindow_t.cfg", module="Gen_FaultWindow", workers=1,
+                deadlock_check=False, timeout=1200, name="fw-gen")
+    exh = vlib.parse_sim_behaviours(g.out)
+    s = ctx.tlc(KSPEC, "Sim_FaultWindow.cfg", module="Gen_FaultWindow", simulate="num=%d" % (150 if quick else 3000),
+                deadlock_check=False, workers=1, timeout=900, name="fw-sim")
+    sim = vlib.parse_sim_behaviours(s.out)
+    if len(exh) < 5000 or len(sim) < 100:
+        raise vlib.Infra("fault-window behaviour generation produced too little (%d, %d)" % (len(exh), len(sim)))
+    behaviours = exh + sim
+    bfile = ctx.tmp("fw-behaviours.ndjson")
+    vlib.write_ndjson(bfile, behaviours)
+    trace = ctx.tmp("fw-trace.ndjson")
+    p = ctx.run([exe, "faults", bfile, trace, ""], timeout=600)
+    nlines = json.loads(p.stdout.strip().splitlines()[-1])["events"]
+    mon = ctx.tlc(KSPEC, "Trace_FaultWindowAbs.cfg", module="Trace_FaultWindowAbs", dfs=True, files={"trace.ndjson": trace},
+                  timeout=1800, name="fw-mon")
+    if mon.depth != nlines + 1:
+        raise vlib.Infra("fault-window monitor did not consume the whole trace (%d of %d)" % (mon.depth - 1, nlines))
+    conf = ctx.tlc(KSPEC, "Trace_FaultWindow.cfg", module="Trace_FaultWindow", dfs=True, files={"trace.ndjson": trace},
+                   timeout=1800, expect_fail=True, name="fw-conf")
+    drift = None
+    if conf.violated:
+        drift = "fault window: invariant %s violated on the real trace at line %d" % (conf.violated, conf.depth)
+    elif conf.error:
+        drift = "fault window: conformance spec could not evaluate line %d" % conf.depth
+    elif conf.depth != nlines + 1:
+        drift = "fault window: trace rejected by the transcription at line %d of %d" % (conf.depth, nlines)
+    nt = len({json.dumps(b) for b in behaviours
+              if any(o == "T" and any(x.startswith("R:") and int(x[2:]) > 0 for x in b[k + 1:]) and any(x.startswith("R:") for x in b[:k])
+                     for k, o in enumerate(b))})
+    return {"behaviours": behaviours, "exhaustive": len(exh), "random": len(sim), "lines": nlines, "trace": trace,
+            "mismatches": _mismatches(mon.out), "drift": drift, "nontrivial": nt, "mc_states": mc.distinct}
+
+
 def run_c08(ctx, pid):
-    raise vlib.Infra("C08 not implemented yet")
+    quick = ctx.quick
+    apa_runs = []
+    exe = ctx.build("breakerbackoff")
+    pool = ThreadPoolExecutor(6)
+    f_fw = pool.submit(fault_window_part, ctx, exe)
+    # (1) symbolic, whole int64 domain, repaired arithmetic: design obligation
+    f_sym = pool.submit(apalache, ctx, "sym-fixed", "MC_Backoff", "CInit_fixed", SYM_INVS, 900 if quick else 2400)
+    # counterexample inputs from the deviating branches of the model -> extra vectors for the real code (thorough; the
+    # boundary vectors of the quick tier already contain both wrap-around classes)
+    ce_vectors = []
+    if not quick:
+        f_ce1 = pool.submit(apalache, ctx, "sym-doublewrap", "MC_Backoff", "CInit_dwrap", ["InvFloor"], 900)
+        f_ce2 = pool.submit(apalache, ctx, "sym-cap62", "MC_Backoff", "CInit_cap62", ["InvExact"], 900)
+        for ce, dname in ((f_ce1.result(), "DoubleWrap"), (f_ce2.result(), "Cap62")):
+            apa_runs.append(ce)
+            if not ce["violated"]:
+                raise vlib.Infra("the model with Defects = {%s} no longer violates its formula: stale Defects branch" % dname)
+            x = _ce_ints(ce["ce"])
+            ce_vectors.append({"n": x["n"], "i": x["i"], "m": x["m"], "ra": x.get("ra", 0)})
+        ctx.log("counterexample inputs of the deviating model branches: %s" % json.dumps(ce_vectors))
+
+    # (2) vectors -> real code -> table judged by Apalache
+    allv, nboundary = c08_vectors(ctx.rng, 200 if quick else 3000)
+    witness = [v for v in allv if _input_class(v) != "other"]
+    if quick:
+        rest = [v for v in allv if _input_class(v) == "other"]
+        nb = len(rest) - 200 if len(rest) > 400 else len(rest) // 2      # the random ones come last
+        vectors = vlib.sample(ctx.rng, witness, 40) + vlib.sample(ctx.rng, rest[:nb], 90) + vlib.sample(ctx.rng, rest[nb:], 50)
+    else:
+        vectors = ce_vectors + allv
+    vfile, ofile = ctx.tmp("vectors.ndjson"), ctx.tmp("records.ndjson")
+    vlib.write_ndjson(vfile, vectors)
+    ctx.run([exe, "backoff", vfile, ofile], timeout=300)
+    rows = vlib.read_ndjson(ofile)
+    if len(rows) != len(vectors):
+        raise vlib.Infra("driver returned %d records for %d vectors" % (len(rows), len(vectors)))
+    ctx.log("vectors: %d evaluated on the real backoffDelay / WithExponentialBackoff (%d of the wrap-around classes)"
+            % (len(rows), sum(1 for v in vectors if _input_class(v) != "other")))
+
+    violations, drift, known_classes = [], None, set()
+    chunk = 200 if quick else 500
+    pending = [rows[k:k + chunk] for k in range(0, len(rows), chunk)]
+    rounds = 0
+    while pending:
+        rounds += 1
+        if rounds > 40:
+            raise vlib.Infra("too many judging rounds")
+        with ThreadPoolExecutor(3) as ex:
+            futs = [(c, ex.submit(apalache, ctx, "table-%d" % (rounds * 100 + k), "Trace_Backoff", "CInit_code", ["J" + x for x in MON_INVS + CONF_INVS],
+                                  1500, {"Backoff_Recs.tla": recs_module(c)})) for k, c in enumerate(pending)]
+            results = [(c, f.result()) for c, f in futs]
+        pending = []
+        for c, r in results:
+            apa_runs.append({k: r[k] for k in ("name", "module", "cinit", "wall_s", "violated", "held")} | {"records": len(c)})
+            if not r["violated"]:
+                continue
+            if r["violated"].startswith("one of"):
+                raise vlib.Infra("apalache split the judging formulas (%s)" % r["name"])
+            name = r["violated"][1:]
+            rec = _ce_ints(r["ce"])
+            rec = {f: rec[f] for f in REC_FIELDS}
+            if name in CONF_INVS:
+                # all Mon* formulas were checked before and hold on this chunk: drift only
+                drift = drift or ("recorded values differ from the transcription (%s) for %s" % (name, json.dumps(rec)))
+                continue
+            cls = _input_class(rec)
+            fid = {"DoubleWrap": "BackoffDoubleWrap", "Cap62": "BackoffCap62"}.get(cls)
+            if fid and ctx.is_known(fid):
+                ctx.report_known(fid, "%s fails for n=%d i=%d m=%d: real delay %d" % (name, rec["n"], rec["i"], rec["m"], rec["r"]))
+                known_classes.add(cls)
+                left = [x for x in c if _input_class(x) != cls]
+                if left and len(left) < len(c):
+                    pending.append(left)
+                continue
+            violations.append((name, rec, cls))
+    sym, fw = f_sym.result(), f_fw.result()
+    pool.shutdown()
+    apa_runs.append(sym)
+    if sym["violated"]:
+        raise vlib.Infra("design-level check failed: MC_Backoff with Defects = {} violates %s\n%s" % (sym["violated"], sym["ce"]))
+    ctx.log("symbolic: %d formulas hold over all of int64 for the repaired arithmetic (%.0fs)" % (len(SYM_INVS), sym["wall_s"]))
+    fw_mism = fw["mismatches"]
+
+    vec_nt = len({(v["n"], v["i"], v["m"]) for v in vectors if v["i"] > 0 and v["n"] >= 2 and v["m"] > 0})
+    states, transitions = ctx.states()
+    cov = {
+        "states": states, "transitions": transitions,
+        "traces_validated_against_impl": len(fw["behaviours"]),
+        "samples": [vectors[0], vectors[len(vectors) // 2], rows[-1], fw["behaviours"][len(fw["behaviours"]) // 2]],
+        "evaluations": len(vectors) + len(fw["behaviours"]),
+        "distinct_nontrivial": vec_nt + fw["nontrivial"],
+        "rule": "arithmetic: boundary-biased vectors (powers of two, products around i*2^(n-1) +-1, the wrap-around classes, non-positive and "
+                "extreme values), seeded random vectors with uniformly random bit length, and the counterexample inputs Apalache derives from the "
+                "deviating model branches; each evaluated on the real backoffDelay (n and n+1) and through the real WithExponentialBackoff; "
+                "non-trivial = i > 0, n >= 2, m > 0. fault counting: every history of length %d over {recordFault(w) for w in -1..3, tick} plus "
+                "random walks of length 16 on the real recordFault; non-trivial = a fault, then a tick, then a fault with a positive window. "
+                "states/transitions are those of the TLC runs (fault counting); the arithmetic is checked symbolically (no state count)"
+                % (5 if quick else 7),
+        "symbolic": {"tool": "apalache-mc 0.58 --length=0", "domain": "all n, i, m, ra in [-2^63, 2^63-1]",
+                     "formulas": SYM_INVS, "holds_for_repaired_arithmetic": True,
+                     "tlc_not_applicable": "TLC integers are 32-bit; int64 wrap-around cannot be represented"},
+        "apalache_runs": apa_runs,
+        "vectors_evaluated_on_impl": len(vectors), "vectors_boundary_pool": nboundary, "counterexample_vectors": ce_vectors,
+        "vectors_in_wraparound_classes": sum(1 for v in vectors if _input_class(v) != "other"),
+        "fault_histories_exhaustive": fw["exhaustive"], "fault_histories_random": fw["random"], "fault_events_validated": fw["lines"],
+        "exhaustive": False, "conformance_drift": "; ".join(d for d in (drift, fw["drift"]) if d) or None,
+        "monitor_mismatches": len(violations) + len(fw_mism),
+    }
+    assumptions = [
+        "Apalache 0.58 / Z3 are trusted for the symbolic check; shifts are modelled as literal-power multiplication + two's-complement wrap",
+        "the precondition maxDelay >= 0 is assumed for non-negativity / cap / exactness (WithExponentialBackoff guarantees "
+        "maxDelay >= initialDelay > 0 whenever backoff is enabled; that normalisation is itself checked)",
+        "recordFault reads the wall clock: time passes by ageing the stored timestamp through the verif-tag shim (1 tick = 1 h, faults "
+        "fall half a tick off the window boundaries); a boundary hit exactly on the nanosecond is not exercised",
+        "the choice of the window and the budget decision in handleRestartDirective are transcribed (EffWindow) but not bound",
+    ]
+    if violations or fw_mism:
+        if violations:
+            name, rec, cls = violations[0]
+            txt = ("formula %s of C08 fails on the real code\ninput class: %s\nrecord (int64 nanoseconds): %s\n"
+                   "reproduce: actor.VerifBackoffDelay(%d, %d, %d) = %d; for n+1: %d\n"
+                   % (name, cls, json.dumps(rec), rec["n"], rec["i"], rec["m"], rec["r"], rec["r1"]))
+            rfile = ctx.tmp("violation.json")
+            with open(rfile, "w") as f:
+                json.dump({"formula": name, "class": cls, "record": rec}, f)
+            rp = ctx.save_replay("seed%d" % ctx.seed, rfile, text=txt)
+            msg = "monitor: %s fails on the real backoffDelay: n=%d i=%d m=%d -> %d (n+1 -> %d) [%s]" % (
+                name, rec["n"], rec["i"], rec["m"], rec["r"], rec["r1"], cls)
+        else:
+            line, what, exp, got = fw_mism[0]
+            rws = vlib.read_ndjson(fw["trace"])
+            beh, idx = _cut_behaviour(rws, int(line))
+            snippet = ctx.tmp("violation.ndjson")
+            vlib.write_ndjson(snippet, beh)
+            rp = ctx.save_replay("seed%d-faults" % ctx.seed, snippet)
+            msg = "monitor: %s of the real recordFault is %s, the window rule says %s (trace line %s; %d mismatches)" % (what, got, exp, line, len(fw_mism))
+        ctx.evidence("model_checking", cov, assumptions, violations=len(violations) + len(fw_mism))
+        raise vlib.Violation(pid, rp, msg)
+    if cov["conformance_drift"]:
+        ctx.log("conformance drift (not a verdict): " + cov["conformance_drift"])
+    ctx.evidence("model_checking", cov, assumptions)
